@@ -78,6 +78,7 @@ class Contract:
     check_frame: bool = True  # pre-existing objects unchanged on every exit, except `modifies`
     use_contracts: tuple = ()  # contracts applied at call sites instead of inlining
     no_inline: tuple = ()  # live functions that must not be inlined (become opaque)
+    opaque: tuple = ()  # "module:qualname" of functions replaced by an opaque total function (assumed, listed)
     loops: Dict[int, LoopSpec] = {}
     callback_raises = None
     opaque_may_raise = False
@@ -208,6 +209,9 @@ def verify_contract(c: Contract, registry: Dict[str, Contract], timeout_ms=core.
         for cname in c.use_contracts:
             cc = registry[cname] if isinstance(cname, str) else cname
             I.contracts[id(resolve_target(cc.target))] = cc
+        for f in c.opaque:
+            live = resolve_target(f)
+            I.models[id(live)] = (lambda nm: (lambda I, *a, **k: _opaque_result(I, nm)))(f)
         for f in c.no_inline:
             I.no_inline.add(id(resolve_target(f) if isinstance(f, str) else f))
         clo = LOADER.closure_of(fn) if isinstance(fn, pytypes.FunctionType) else None
@@ -270,6 +274,11 @@ def verify_contract(c: Contract, registry: Dict[str, Contract], timeout_ms=core.
     out["stats"] = dict(core.STATS)
     out["wall_s"] = time.time() - t0
     return out
+
+
+def _opaque_result(I, name):
+    I.opaque_calls[name] = I.opaque_calls.get(name, 0) + 1
+    return core.SAny(name="ret_" + name.rsplit(":", 1)[-1].rsplit(".", 1)[-1])
 
 
 def _short(x):
